@@ -59,7 +59,7 @@ int unit_index(const std::string& n) { for (int i = 0; i < 4; ++i) if (n == UNIT
 struct Pt { double y, B, mu; };                 // y: p (PVTO lines, PVDx) or Rv (PVTG lines)
 struct Nd { double x; Pt pts[3]; };             // x: Rs (PVTO) or p (PVTG); pts[0] = saturated
 struct LiveSet { Nd n[4]; };
-const LiveSet OILSETS[3] = {
+const LiveSet OILSETS[4] = {
     {{{10, {{20, 1.10, 1.5}, {60, 1.08, 1.7}, {120, 1.06, 1.9}}},
       {40, {{80, 1.25, 1.1}, {150, 1.22, 1.2}, {250, 1.20, 1.35}}},
       {90, {{200, 1.45, 0.8}, {300, 1.40, 0.9}, {400, 1.37, 1.0}}},
@@ -71,8 +71,15 @@ const LiveSet OILSETS[3] = {
     {{{25, {{50, 1.15, 2.0}, {51, 1.1499, 2.001}, {300, 1.09, 2.9}}},
       {26, {{55, 1.16, 1.95}, {200, 1.12, 2.3}, {201, 1.1199, 2.31}}},
       {120, {{180, 1.5, 0.7}, {181, 1.4995, 0.701}, {182, 1.499, 0.702}}},
-      {300, {{400, 2.1, 0.3}, {800, 1.9, 0.4}, {1600, 1.7, 0.6}}}}}};
-const LiveSet GASSETS[3] = {
+      {300, {{400, 2.1, 0.3}, {800, 1.9, 0.4}, {1600, 1.7, 0.6}}}}},
+    // D: saturated nodes very unevenly spaced in p, Rs(p) strongly concave (steep first interval, long flat ones):
+    // the tabulated initial guess of saturationPressure lands in a flat interval and the first Newton step
+    // overshoots below 0 Pa for every Rs of the steep interval (needs >= 3 saturated nodes to show).
+    {{{10, {{10, 1.05, 1.2}, {60, 1.04, 1.3}, {120, 1.03, 1.4}}},
+      {100, {{20, 1.30, 0.8}, {100, 1.28, 0.85}, {200, 1.26, 0.9}}},
+      {110, {{300, 1.33, 0.75}, {400, 1.31, 0.80}, {500, 1.29, 0.85}}},
+      {111, {{900, 1.335, 0.74}, {1000, 1.33, 0.75}, {1200, 1.32, 0.77}}}}}};
+const LiveSet GASSETS[4] = {
     {{{20, {{0.0002, 0.06, 0.012}, {0.0001, 0.0605, 0.0115}, {0, 0.061, 0.011}}},
       {100, {{0.0004, 0.025, 0.016}, {0.0002, 0.0253, 0.0155}, {0, 0.0256, 0.015}}},
       {300, {{0.0009, 0.012, 0.025}, {0.0003, 0.0123, 0.022}, {0, 0.0125, 0.020}}},
@@ -84,7 +91,12 @@ const LiveSet GASSETS[3] = {
     {{{10, {{0.001, 0.1, 0.01}, {0.000999, 0.1001, 0.00999}, {0.0005, 0.104, 0.0095}}},
       {11, {{0.00101, 0.092, 0.0101}, {0.0002, 0.095, 0.0093}, {0.00019, 0.09505, 0.00929}}},
       {200, {{0.003, 0.02, 0.02}, {0.0029, 0.0201, 0.0199}, {0.0028, 0.0202, 0.0198}}},
-      {600, {{0.009, 0.0075, 0.05}, {0.004, 0.0079, 0.04}, {0, 0.0085, 0.03}}}}}};
+      {600, {{0.009, 0.0075, 0.05}, {0.004, 0.0079, 0.04}, {0, 0.0085, 0.03}}}}},
+    // D: the Rv(p) analogue of oil set D (WetGasPvt::saturationPressure)
+    {{{10, {{0.0001, 0.1, 0.011}, {0.00005, 0.1005, 0.0108}, {0, 0.101, 0.0105}}},
+      {20, {{0.001, 0.05, 0.013}, {0.0005, 0.0505, 0.0125}, {0, 0.051, 0.012}}},
+      {300, {{0.0011, 0.0035, 0.03}, {0.0004, 0.0036, 0.026}, {0, 0.0037, 0.022}}},
+      {900, {{0.00111, 0.0015, 0.06}, {0.0006, 0.00155, 0.05}, {0, 0.0016, 0.04}}}}}};
 struct DeadSet { Pt r[6]; };                    // y = p
 const DeadSet PVDOSETS[3] = {
     {{{20, 1.10, 1.0}, {80, 1.09, 1.05}, {150, 1.08, 1.1}, {250, 1.07, 1.2}, {400, 1.05, 1.35}, {600, 1.03, 1.5}}},
@@ -97,7 +109,7 @@ const DeadSet PVDGSETS[3] = {
 struct CCSet { double pref, B, C, mu, Cv; };
 const CCSet PVTWSETS[3] = {{200, 1.02, 4.5e-5, 0.5, 1.0e-5}, {14.7, 1.0041, 3.1e-6, 0.31, 0.0}, {1, 1.1, 1.0e-3, 1.1, 2.0e-3}};
 const CCSet PVCDOSETS[3] = {{200, 1.25, 1.2e-4, 1.1, 3.0e-5}, {14.7, 1.05, 8.0e-6, 2.3, 0.0}, {50, 1.5, 1.0e-3, 0.9, 5.0e-4}};
-const double DENS[3][3] = {{850, 1000, 0.9}, {790.5, 1033, 1.12}, {910, 1100, 0.7}};   // oil water gas (deck numbers)
+const double DENS[4][3] = {{850, 1000, 0.9}, {790.5, 1033, 1.12}, {910, 1100, 0.7}, {859.5, 1033, 0.854}};   // oil water gas (deck numbers)
 
 // ----------------------------------------------------------- case ---------
 struct RSpec { int set = 0; std::vector<int> k; };          // live: k per saturated node; dead: {n}; cc: {}
@@ -117,7 +129,7 @@ Fam parse_fam(const std::string& s) {
     for (size_t i = c + 1; i <= s.size(); ++i) {
         char ch = i < s.size() ? s[i] : ',';
         if (ch == ',') { if (have) f.regs.push_back(cur); cur = RSpec(); have = false; }
-        else if (ch >= 'A' && ch <= 'C') { cur.set = ch - 'A'; have = true; }
+        else if (ch >= 'A' && ch <= 'D') { cur.set = ch - 'A'; have = true; }
         else if (ch >= '1' && ch <= '9') cur.k.push_back(ch - '0');
         else throw std::runtime_error("bad family " + s);
     }
@@ -374,10 +386,14 @@ template <class V> void check_live(Sink& S, const V& v, const LiveRef& L, int nt
             S.obs(ub); S.obs(um); S.cnt("continuity_points", 2);
             if (!releq(ub, vb, 1e-9)) S.viol("B", "continuity:midnode", "undersaturated 1/B(p, " + Rn + "sat(p)) = " + N(ub) + " != saturated 1/B(p) = " + N(vb) + " between saturated nodes " + std::to_string(i) + "," + std::to_string(i + 1) + at(p, vr) + " rel " + N((ub - vb) / vb));
             if (!releq(um, vm, 1e-9)) S.viol("mu", "continuity:midnode", "undersaturated mu(p, " + Rn + "sat(p)) = " + N(um) + " != saturated mu(p) = " + N(vm) + " between saturated nodes " + std::to_string(i) + "," + std::to_string(i + 1) + at(p, vr) + " rel " + N((um - vm) / vm));
+        }
+        // N6: saturationPressure(Rsat(p)) = p on the 16ths of every saturated interval (both tiers)
+        for (int k = 1; k < 16; ++k) {
+            const double p = lerp(a.p, b.p, k / 16.0), vr = sR(p);
             try {
                 const double ps = v.psat(TEMP, vr);
                 S.obs(ps); S.cnt("satpressure_points");
-                if (!releq(ps, p, 1e-7)) S.viol("psat", "satpressure", "saturationPressure(" + Rn + "sat(p)) " + gw(ps, p) + " (" + Rn + "=" + N(vr) + ")");
+                if (!releq(ps, p, 1e-7)) S.viol("psat", "satpressure", "saturationPressure(" + Rn + "sat(p)) " + gw(ps, p) + " (" + Rn + "=" + N(vr) + ", " + std::to_string(k) + "/16 between saturated nodes " + std::to_string(i) + "," + std::to_string(i + 1) + ")");
             } catch (const std::exception& e) { S.viol("psat", "throws", std::string("saturationPressure threw between nodes: ") + e.what()); }
         }
     }
@@ -645,11 +661,11 @@ std::vector<std::vector<int>> live_shapes(int nmin, int nmax) {
     return out;
 }
 // all region assignments of a family: (distinct) value sets per region x shapes per region
-void gen_regs(int nsets, int maxreg, const std::vector<std::vector<int>>& shapes, const std::vector<std::vector<int>>& shapes3, std::vector<std::vector<RSpec>>& out) {
-    for (int s = 0; s < nsets; ++s) for (auto& sh : shapes) out.push_back({RSpec{s, sh}});
-    for (int s1 = 0; s1 < nsets; ++s1) for (int s2 = 0; s2 < nsets; ++s2) { if (s1 == s2) continue; for (auto& a : shapes) for (auto& b : shapes) out.push_back({RSpec{s1, a}, RSpec{s2, b}}); }
-    if (maxreg >= 3 && nsets >= 3)
-        for (int s1 = 0; s1 < 3; ++s1) for (int s2 = 0; s2 < 3; ++s2) for (int s3 = 0; s3 < 3; ++s3) {
+void gen_regs(const std::vector<int>& sets, int maxreg, const std::vector<std::vector<int>>& shapes, const std::vector<std::vector<int>>& shapes3, std::vector<std::vector<RSpec>>& out) {
+    for (int s : sets) for (auto& sh : shapes) out.push_back({RSpec{s, sh}});
+    for (int s1 : sets) for (int s2 : sets) { if (s1 == s2) continue; for (auto& a : shapes) for (auto& b : shapes) out.push_back({RSpec{s1, a}, RSpec{s2, b}}); }
+    if (maxreg >= 3 && sets.size() >= 3)
+        for (int s1 : sets) for (int s2 : sets) for (int s3 : sets) {
             if (s1 == s2 || s1 == s3 || s2 == s3) continue;
             for (auto& a : shapes3) for (auto& b : shapes3) for (auto& d : shapes3) out.push_back({RSpec{s1, a}, RSpec{s2, b}, RSpec{s3, d}});
         }
@@ -677,8 +693,8 @@ int main(int argc, char** argv) {
     Opm::Parser parser; g_parser = &parser;
     const bool T = run.thorough();
     run.rule = std::string("shape-exhaustive: PVTO/PVTG with ") + (T ? "2-4" : "2-3") + " saturated nodes x 1-3 undersaturated points each (all combinations, last node >= 2), PVDO/PVDG with "
-        + (T ? "2-6" : "2-4") + " nodes, PVTW/PVCDO records; 1-2 PVT regions with all ordered pairs of distinct value sets and all shape pairs" + (T ? " (+ 3 regions: all permutations of 3 value sets x all 2-node shape triples)" : "")
-        + "; x {METRIC,FIELD,LAB,PVT-M}; " + (T ? "3" : "2") + " fixed physically ordered value sets; interior points at " + (T ? "eighths" : "quarters")
+        + (T ? "2-6" : "2-4") + " nodes, PVTW/PVCDO records; 1-2 PVT regions with all ordered pairs of distinct value sets and all shape pairs" + (T ? " (+ 3 regions: all ordered triples of distinct value sets x all 2-node shape triples)" : "")
+        + "; x {METRIC,FIELD,LAB,PVT-M}; " + (T ? "3" : "2") + " fixed physically ordered value sets (PVTO/PVTG: + set D with very unevenly spaced saturated pressures and strongly concave Rs(p)/Rv(p), whose saturationPressure Newton iteration overshoots below 0 Pa); saturationPressure(Rsat(p)) = p on nodes and on the 16ths of every saturated interval; other interior points at " + (T ? "eighths" : "quarters")
         + " of every segment; every deck through Parser->EclipseState->Schedule->*PvtMultiplexer::initFromState; oracles: node 1e-9, documented extension of single-point nodes 1e-9, bracket 1e-12, continuity (nodes 1e-12, between nodes 1e-9), saturationPressure inversion 1e-7, finite+continuous 10% beyond range, AD derivative vs central difference 1e-5 (h-sweep 1e-4..1e-7, kink-guarded); distinct = distinct (case, returned values) hashes";
     run.assumptions = {
         "reference model = the table in deck numbers + own exact unit definitions (psi = lbf/in^2, stb = 42*231 in^3, Mscf = 1000 ft^3, atm = 101325 Pa), not Units.hpp",
@@ -701,15 +717,16 @@ int main(int argc, char** argv) {
     const auto lshapes = live_shapes(2, T ? 4 : 3), lshapes3 = live_shapes(2, 2);
     std::vector<std::vector<int>> dshapes, cshape = {{}};
     for (int n = 2; n <= (T ? 6 : 4); ++n) dshapes.push_back({n});
-    struct Prim { const char* kw; const char* kind; const std::vector<std::vector<int>>*sh, *sh3; };
-    const Prim prims[] = {{"PVTO", "oil", &lshapes, &lshapes3}, {"PVTG", "gas", &lshapes, &lshapes3}, {"PVDO", "oil", &dshapes, &dshapes}, {"PVDG", "gas", &dshapes, &dshapes},
-                          {"PVCDO", "oil", &cshape, &cshape}, {"PVTW", "wat", &cshape, &cshape}};
+    struct Prim { const char* kw; const char* kind; const std::vector<std::vector<int>>*sh, *sh3; bool live; };
+    const std::vector<int> baseSets = T ? std::vector<int>{0, 1, 2} : std::vector<int>{0, 1}, liveSets = T ? std::vector<int>{0, 1, 2, 3} : std::vector<int>{0, 1, 3};
+    const Prim prims[] = {{"PVTO", "oil", &lshapes, &lshapes3, true}, {"PVTG", "gas", &lshapes, &lshapes3, true}, {"PVDO", "oil", &dshapes, &dshapes, false}, {"PVDG", "gas", &dshapes, &dshapes, false},
+                          {"PVCDO", "oil", &cshape, &cshape, false}, {"PVTW", "wat", &cshape, &cshape, false}};
     uint64_t idx = 0;
     bool stop = false;
     for (const Prim& P : prims) {
         if (stop) break;
         std::vector<std::vector<RSpec>> regs;
-        gen_regs(nsets, maxreg, *P.sh, *P.sh3, regs);
+        gen_regs(P.live ? liveSets : baseSets, maxreg, *P.sh, *P.sh3, regs);
         run.count(std::string("tables_") + P.kw, 0);
         for (auto& rg : regs)
             for (int unit = 0; unit < 4 && !stop; ++unit) {
